@@ -8,9 +8,10 @@ Quantifier: all byte strings and translation sets (including ranges, negation, a
 The mirrors (`Gsu.Str.replace`, `trNew`, `expandRanges`, `toLowerStr`, `cmpLower`, `split`,
 `join` …) are the definitions the driver `drv_c38` executes against util/tr, util/str and
 util/ascii; the reference definitions (`trSpec`, `parseItems`/`denote`, `List.map toLower`,
-`cmpBytes`) are in the same file. Helper lemmas: `Gsu/Proofs/Str.lean`.
+`cmpBytes`) are in the same file. Helper lemmas: `Gsu/Proofs/Str.lean`, `Gsu/Proofs/Str2.lean`.
 -/
 import Gsu.Proofs.Str
+import Gsu.Proofs.Str2
 import Gsu.Gen.Ascii
 namespace Gsu.Props.C38
 open Gsu.Proto Gsu.Ascii Gsu.Str
@@ -69,16 +70,51 @@ theorem split_join_inverse (s sep : Bytes) : joinLoop sep true (split s sep) = s
     subst this; rfl
   · rw [joinLoop_splitGo]; simp
 
-/-- PARTIAL. Full statement: for every non-empty separator, no piece of `split s sep` contains
-`sep` (so Split is the unique inverse of Join on separator free pieces). Proved for one byte
-separators only; for longer separators only the join identity above is proved. -/
-theorem split_pieces_free_partial (s : Bytes) (b : UInt8) : ∀ p ∈ split s [b], b ∉ p := by
+/-- Split completeness: for every non-empty separator (any length), no piece of `split s sep`
+contains `sep` as a contiguous substring. (Loop invariant `CurFree` in `Gsu/Proofs/Str2.lean`: no
+position inside the current piece starts an occurrence of `sep` in the remaining text, so the
+pieces are those of the greedy leftmost split; `hasPrefix` is the prefix relation by
+`hasPrefix_iff`.) -/
+theorem split_pieces_free (s sep : Bytes) (hsep : sep ≠ []) :
+    ∀ p ∈ split s sep, ¬ sep <:+: p := by
   unfold split
   split
   · simp
-  · exact splitGo_single_free b _ [] s (by omega) (by simp)
+  · exact splitGo_free sep hsep _ [] s (by omega) (curFree_nil sep s)
+
+/-- the one byte instance in terms of membership (the former `split_pieces_free_partial`):
+no piece contains the separator byte -/
+theorem split_pieces_free_byte (s : Bytes) (b : UInt8) : ∀ p ∈ split s [b], b ∉ p := by
+  intro p hp hb
+  exact split_pieces_free s [b] (by simp) p hp ((singleton_infix_iff b p).mpr hb)
+
+/-- Split is exactly the greedy leftmost split, and nothing else is: for a non-empty text and a
+non-empty separator (any length), `split s sep = ps` iff `ps` is non-empty, joins back to `s`, and
+is `Greedy` (declarative definition in `Gsu/Proofs/Str2.lean`: in the joined text no occurrence of
+`sep` starts at a position inside a piece). So Split is the unique inverse of Join on greedy
+piece lists. -/
+theorem split_eq_iff_greedy (s sep : Bytes) (hs : s ≠ []) (hsep : sep ≠ []) (ps : List Bytes) :
+    split s sep = ps ↔ ps ≠ [] ∧ joinLoop sep true ps = s ∧ Greedy sep ps := by
+  unfold split
+  have : s.isEmpty = false := by cases s <;> simp_all
+  simp only [this, Bool.false_eq_true, if_false]
+  exact splitGo_eq_iff sep hsep s ps
+
+/-- for a one byte separator "greedy" is just "no piece contains the byte": Split undoes Join on
+every non-empty list of separator free pieces (with a non-empty joined text; Split("") is nil) -/
+theorem split_join_byte_inverse (b : UInt8) (ps : List Bytes) (hne : ps ≠ [])
+    (hfree : ∀ p ∈ ps, b ∉ p) (hs : joinLoop [b] true ps ≠ []) :
+    split (joinLoop [b] true ps) [b] = ps :=
+  (split_eq_iff_greedy _ [b] hs (by simp) ps).mpr ⟨hne, rfl, (greedy_byte b ps).mpr hfree⟩
+
+-- for longer separators separator free pieces are not enough (this is strings.Split's
+-- documented leftmost behaviour, not a defect): Join("aa", ["a","b"]) = "aaab" splits to ["","ab"]
+example : joinLoop [97, 97] true [[97], [98]] = [97, 97, 97, 98] ∧
+    split [97, 97, 97, 98] [97, 97] = [[], [97, 98]] := by decide
 
 example : split [97, 44, 98, 44] [44] = [[97], [98], []] := by decide
+-- two byte separator, overlapping occurrences: "a,,,b" split on ",," is ["a", ",b"]
+example : split [97, 44, 44, 44, 98] [44, 44] = [[97], [44, 98]] := by decide
 
 /-! (G) util/ascii/ascii.go, regenerated: every function agrees with the model on all bytes -/
 
